@@ -45,17 +45,19 @@ ASSETS = {
     2: dict(js=False, css=True, mjs=(), mcss={}, base=False),
     3: dict(js=True, css=True, mjs=("own", "shared.js"), mcss={"all": ("own",), "print": ("p.css",)}, base=False),
     4: dict(js=True, css=False, mjs=("shared.js",), mcss={"all": ("shared.css",)}, base=True, css_form="str"),
+    # the shared JS file declared in another *form*: a pre-formatted, safe <script> tag (documented Media usage)
+    5: dict(js=False, css=True, mjs=("shared.js",), mcss={}, base=False, js_form="safetag"),
 }
 BASE_MEDIA_JS = ("base.js",)
 NAMES = [("Plain", "Other"), ("with_underscore9", "Plain"), ("Größe", "Plain"), ("Plain", "名前"), ("Same", "Same")]
-COMBOS_A = [(3, 0), (0, 3), (1, 2), (3, 4), (4, 3), (1, 1)]
-WRAPPERS = ("none", "html", "placeholders")
+COMBOS_A = [(3, 0), (0, 3), (1, 2), (3, 4), (4, 3), (1, 1), (3, 5), (5, 4)]
+WRAPPERS = ("none", "html", "placeholders", "html+css_placeholder", "html+js_placeholder")
 
 
 def bounds(tier):
     if tier == "thorough":
-        return {"A": [("assets", B, 4, 0)], "A_iso": [("assets", B, 3, 0)], "B_N": 2}
-    return {"A": [("assets", B, 3, 0)], "A_iso": [("assets", B, 2, 0)], "B_N": 2}
+        return {"A": [("assets", B, 5, 0)], "A_iso": [("assets", B, 4, 0)], "B_N": 3}
+    return {"A": [("assets", B, 4, 0)], "A_iso": [("assets", B, 3, 0)], "B_N": 2}
 
 
 def make_spec(name, template):
@@ -103,6 +105,10 @@ def build_classes(prog, combo, names):
             m = {}
             if a["mjs"]:
                 m["js"] = [(f"{letter}.js" if f == "own" else f) for f in a["mjs"]]
+                if a.get("js_form") == "safetag":
+                    from django.utils.safestring import mark_safe
+
+                    m["js"] = [mark_safe('<script src="/static/%s" defer></script>' % f) for f in m["js"]]
             if a["mcss"]:
                 if a.get("css_form") == "str":
                     m["css"] = a["mcss"]["all"][0] if a["mcss"]["all"][0] != "own" else f"{letter}.css"
@@ -137,6 +143,10 @@ def wrap(page_src, wrapper):
         return "<html><head><title>t</title></head><body>" + page_src + "</body></html>"
     if wrapper == "placeholders":
         return "{% component_css_dependencies %}<main>" + page_src + "</main>{% component_js_dependencies %}"
+    if wrapper == "html+css_placeholder":  # only one kind of placeholder: the other kind goes to its default location
+        return "<html><head>{% component_css_dependencies %}<title>t</title></head><body>" + page_src + "</body></html>"
+    if wrapper == "html+js_placeholder":
+        return "<html><head><title>t</title></head><body>{% component_js_dependencies %}" + page_src + "</body></html>"
     return page_src
 
 
